@@ -32,6 +32,7 @@ type Engine struct {
 	inlineOK map[string]bool
 	srcCache map[string][]string
 	implIdx  map[string][]*types.Named
+	nnGlobals map[*ssa.Global]int
 	repo     string
 }
 
@@ -501,6 +502,45 @@ func (eng *Engine) uniqueImplByName(it types.Type, method string) *ssa.Function 
 		return nil
 	}
 	return eng.prog.MethodValue(sel)
+}
+
+// nonNilGlobal: package-level error sentinels that are initialised once (errors.New / fmt.Errorf in the
+// package initialiser) and never assigned anywhere else in the loaded program.
+func (eng *Engine) nonNilGlobal(g *ssa.Global) bool {
+	if eng.nnGlobals == nil {
+		eng.nnGlobals = map[*ssa.Global]int{} // 1: only good init stores, 2: disqualified
+		for fn := range ssautil.AllFunctions(eng.prog) {
+			for _, b := range fn.Blocks {
+				for _, in := range b.Instrs {
+					st, ok := in.(*ssa.Store)
+					if !ok {
+						continue
+					}
+					gl, ok := st.Addr.(*ssa.Global)
+					if !ok {
+						continue
+					}
+					good := false
+					if fn.Name() == "init" && fn.Synthetic != "" {
+						if c, ok := st.Val.(*ssa.Call); ok {
+							if callee := c.Call.StaticCallee(); callee != nil {
+								switch callee.String() {
+								case "errors.New", "fmt.Errorf":
+									good = true
+								}
+							}
+						}
+					}
+					if good && eng.nnGlobals[gl] != 2 {
+						eng.nnGlobals[gl] = 1
+					} else {
+						eng.nnGlobals[gl] = 2
+					}
+				}
+			}
+		}
+	}
+	return eng.nnGlobals[g] == 1
 }
 
 func (eng *Engine) inferredMods(ex *Exec, fn *ssa.Function) *modSet {
